@@ -77,6 +77,10 @@ class InterpV:
     def sym_getattr(self, ev, name, node, mod):
         if name == "derivative" and self.call_style in ("krogh",):
             return BoundLib("interp.derivative_at", self)
+        if name == "derivative" and self.kind == "ppoly":
+            return BoundLib("ppoly.derivative", self)
+        if name == "derivative" and self.kind == "spline":
+            return BoundLib("spline.derivative", self)
         if name == "extrapolate":
             return self.extrapolate
         if name == "deriv" and self.call_style == "poly":
@@ -100,6 +104,31 @@ class DerivV:
         if len(args) != 1 or kwargs:
             raise ev.err("derivative polynomial called with unexpected arguments", n, mod)
         return self.interp.ev(self.order, args[0])
+
+
+class DerivPP:
+    """PPoly.derivative(nu): a new piecewise polynomial that copies the extrapolate flag AT CREATION (scipy PPoly.derivative)"""
+
+    def __init__(self, interp, order, extrapolate):
+        self.interp, self.order, self.extrapolate = interp, order, extrapolate
+
+    def sym_call(self, ev, args, kwargs, n, mod):
+        b = dict(zip(["x", "nu", "extrapolate"], args))
+        b.update(kwargs)
+        nu = _const_int(b.get("nu", sp.Integer(0)))
+        ck = b.get("extrapolate")
+        return self.interp.ev(self.order + nu, b["x"], self.extrapolate if ck is None else bool(ck))
+
+    def sym_setattr(self, ev, name, v, node, mod):
+        if name == "extrapolate" and isinstance(v, bool):
+            self.extrapolate = v
+            return
+        raise ev.err(f"store to attribute {name} of a derivative polynomial", node, mod)
+
+    def sym_getattr(self, ev, name, node, mod):
+        if name == "derivative":
+            return BoundLib("ppoly.derivative2", self)
+        raise ev.err(f"attribute {name} of a derivative polynomial", node, mod)
 
 
 class CoefV:
@@ -225,7 +254,23 @@ def intrinsics(reg: Registry):
             return sp.Integer(int(v))
         return v if v.is_integer else sp.floor(v)
 
+    def ppoly_derivative(ev, a, k):
+        it = a[0]
+        nu = _const_int(k.get("nu", a[1] if len(a) > 1 else sp.Integer(1)))
+        return DerivPP(it, nu, it.effective_extrapolation())
+
+    def ppoly_derivative2(ev, a, k):
+        d = a[0]
+        nu = _const_int(k.get("nu", a[1] if len(a) > 1 else sp.Integer(1)))
+        return DerivPP(d.interp, d.order + nu, d.extrapolate)
+
+    def spline_derivative(ev, a, k):
+        it = a[0]
+        nu = _const_int(k.get("n", a[1] if len(a) > 1 else sp.Integer(1)))
+        return DerivPP(it, nu, it.effective_extrapolation())
+
     return {
+        "ppoly.derivative": ppoly_derivative, "ppoly.derivative2": ppoly_derivative2, "spline.derivative": spline_derivative,
         "scipy.interpolate.UnivariateSpline": spline,
         "scipy.interpolate.InterpolatedUnivariateSpline": spline,
         "scipy.interpolate.PchipInterpolator": ppoly("PchipInterpolator"),
